@@ -268,7 +268,7 @@ def mutate_(r, case, files, written, kind=None):
         t.nodes[container]['parent'] = container
         x = t.mkdir(container, 2)
         t.link(container, 'xd', x)
-        shape = r.choice(['file', 'file', 'file', 'empty', 'subdir', 'hidden', 'manifest-file'])
+        shape = r.choice(['file', 'file', 'file', 'empty', 'subdir', 'hidden', 'manifest-file', 'listed-dir'])
         top = t.lookup('Manifest')
         if shape == 'manifest-file' and top is not None and t.lookup((d + '/' if d else '') + 'xm') is None:
             # a sub-Manifest FILE that lives on the other filesystem (a file symlink), in a directory of the tree's own, with a matching entry
@@ -286,6 +286,13 @@ def mutate_(r, case, files, written, kind=None):
                 # ... with an entry of its own that matches it
                 node = t.nodes[top]
                 line = ET.entry_line('DATA', (d + '/' if d else '') + 'xd/inner', b'on other device', ['SHA1'])
+                node['data'] = node['data'] + (b'' if node['data'].endswith(b'\n') or not node['data'] else b'\n') + line.encode('utf8') + b'\n'
+                node['size'] = len(node['data'])
+        elif shape == 'listed-dir':
+            # the foreign directory itself has a file entry: a listed path that leads to a non-regular object on the other filesystem
+            if top is not None:
+                node = t.nodes[top]
+                line = 'DATA ' + ((d + '/' if d else '') + 'xd').replace(' ', '\\x20') + ' 0'
                 node['data'] = node['data'] + (b'' if node['data'].endswith(b'\n') or not node['data'] else b'\n') + line.encode('utf8') + b'\n'
                 node['size'] = len(node['data'])
         elif shape == 'subdir':
